@@ -22,6 +22,7 @@ package ipv4
 
 import (
 	"log"
+	"math"
 	"sync/atomic"
 
 	"github.com/brewlin/net-protocol/pkg/buffer"
@@ -123,6 +124,11 @@ func (e *endpoint) MaxHeaderLength() uint16 {
 // 将传输层的数据封装加上IP头，并调用网卡的写入接口，写入IP报文
 func (e *endpoint) WritePacket(r *stack.Route, hdr buffer.Prependable, payload buffer.VectorisedView,
 	protocol tcpip.TransportProtocolNumber, ttl uint8) *tcpip.Error {
+	// The 16-bit total-length field cannot describe a larger datagram;
+	// fail the write instead of emitting a truncated length.
+	if header.IPv4MinimumSize+hdr.UsedLength()+payload.Size() > math.MaxUint16 {
+		return tcpip.ErrMessageTooLong
+	}
 	// 预留ip报文的空间 在传输层头部加上ip头最少20字节预留
 	ip := header.IPv4(hdr.Prepend(header.IPv4MinimumSize))
 	length := uint16(hdr.UsedLength() + payload.Size())
